@@ -29,6 +29,9 @@ V ==
        ELSE IF \E k, l \in K : k < l /\ T.hist[k].op = T.hist[l].op /\ ArgVals(1, k) = ArgVals(1, l) /\ Outcome(1, k) # Outcome(1, l)
             THEN LET p == CHOOSE x \in K \X K : x[1] < x[2] /\ T.hist[x[1]].op = T.hist[x[2]].op /\ ArgVals(1, x[1]) = ArgVals(1, x[2]) /\ Outcome(1, x[1]) # Outcome(1, x[2]) IN
                  <<"REJECT", "equal-calls-give-different-results @ " \o T.hist[p[1]].op>>
+       \* a returned value belongs to the caller: after the caller changed it in place, the same call on the same arguments answers the same
+       ELSE IF \E k \in K : T.runs[1].steps[k].again # T.runs[1].steps[k].result
+            THEN <<"REJECT", "result-changed-by-what-the-caller-did-to-an-earlier-result @ " \o T.hist[CHOOSE k \in K : T.runs[1].steps[k].again # T.runs[1].steps[k].result].op>>
        ELSE IF \E r \in R : T.runs[r].steps # T.runs[1].steps
             THEN <<"REJECT", "runs-differ-across-hash-seeds-or-processes @ " \o T.runs[CHOOSE r \in R : T.runs[r].steps # T.runs[1].steps].env>>
        ELSE <<"ACCEPT", "">>
